@@ -34,16 +34,60 @@ Accepted(rec) ==
   /\ rec.ok
   /\ \A m \in Universe({rec.r} \cup Others(rec)) : Match(rec.r, m) <=> Want(rec, m)
 
-\* diagnosis of a rejected record (labels only; the verdict is Accepted)
+-----------------------------------------------------------------------------
+(* Diagnosis of a rejected record.  Labels only: the verdict is Accepted.   *)
+(* diff = paths (field names, list indices as strings) of the fields whose  *)
+(* meaning differs from the reference conjunction.                          *)
 Only(c, f) == Put(E, f, c[f])
 FieldDiffers(x, y, f) ==
   \E m \in Universe({Only(x, f), Only(y, f)}) : Match(Only(x, f), m) # Match(Only(y, f), m)
+
+RECURSIVE DiffPaths(_, _)
+DiffPaths(x, y) ==
+  LET leaf == {<<f>> : f \in {g \in Fields \ {"not", "or"} : FieldDiffers(x, y, g)}}
+      nots == IF ~FieldDiffers(x, y, "not") THEN {}
+              ELSE LET sub == IF Len(x.not) # Len(y.not) THEN {}
+                              ELSE UNION {{<<"not", ToString(i)>> \o p : p \in DiffPaths(x.not[i], y.not[i])} :
+                                          i \in 1..Len(x.not)}
+                   IN IF sub = {} THEN {<<"not">>} ELSE sub
+      ors  == IF ~FieldDiffers(x, y, "or") THEN {}
+              ELSE LET sub == IF Len(x.or) # Len(y.or) THEN {}
+                              ELSE UNION {{<<"or", ToString(i), ToString(j)>> \o p :
+                                             p \in DiffPaths(x.or[i][j], y.or[i][j])} :
+                                          i \in 1..Len(x.or), j \in 1..2}
+                   IN IF sub = {} THEN {<<"or">>} ELSE sub
+  IN leaf \cup nots \cup ors
+
+(* Model of one known deviation, used only to label rejected records (sig   *)
+(* and-drops-smaller): And replaces a set Smaller of the receiver by an     *)
+(* unset Smaller of the argument; the SEARCH parser goes through And for    *)
+(* date and size keys only and parses a parenthesised list into the         *)
+(* criteria under construction.                                             *)
+AndDrop(a, b) ==
+  [AndRef(a, b) EXCEPT !.smaller = IF a.smaller = 0 \/ b.smaller < a.smaller THEN b.smaller ELSE a.smaller]
+ViaAnd == {"SINCE", "BEFORE", "ON", "SENTSINCE", "SENTBEFORE", "SENTON", "LARGER", "SMALLER"}
+RECURSIVE Flat(_)
+Flat(s) == IF s = <<>> THEN <<>>
+           ELSE (IF s[1].k = "LIST" THEN Flat(s[1].sub) ELSE <<s[1]>>) \o Flat(Tail(s))
+RECURSIVE MeaningD(_), ParseD(_)
+MeaningD(key) ==
+  CASE key.k = "NOT" -> [E EXCEPT !.not = <<ParseD(<<key.sub[1]>>)>>]
+    [] key.k = "OR" -> [E EXCEPT !.or = <<<<ParseD(<<key.sub[1]>>), ParseD(<<key.sub[2]>>)>>>>]
+    [] OTHER -> KeyMeaning(key)
+ParseD(s) ==
+  LET f == Flat(s) IN
+    IF f = <<>> THEN E
+    ELSE LET last == f[Len(f)]
+             init == ParseD(SubSeq(f, 1, Len(f) - 1))
+         IN IF last.k \in ViaAnd THEN AndDrop(init, MeaningD(last)) ELSE AndRef(init, MeaningD(last))
+Drop(rec) == IF rec.kind = "keys" THEN ParseD(rec.keys) ELSE AndDrop(rec.a, rec.b)
+
 Diagnosis(i, rec) ==
   IF ~rec.ok THEN [line |-> i, ok |-> FALSE]
   ELSE LET U == Universe({rec.r} \cup Others(rec))
            w == CHOOSE m \in U : Match(rec.r, m) # Want(rec, m)
        IN [line |-> i, ok |-> TRUE, witness |-> w, got |-> Match(rec.r, w), want |-> Want(rec, w),
-           diff |-> {f \in Fields : FieldDiffers(rec.r, Ref(rec), f)}, ref |-> Ref(rec)]
+           diff |-> DiffPaths(rec.r, Ref(rec)), ref |-> Ref(rec), drop |-> Drop(rec)]
 
 Judge(i) ==
   IF Accepted(Trace[i]) THEN TRUE
